@@ -943,3 +943,84 @@ def rule_min_cost_domain(ctx, rep, config="c-lib"):
 def _strip_int(f, op):
     from ..model import strip_int_casts
     return strip_int_casts(f, op)
+
+
+def rule_single_release_conditions(ctx, rep, config="c-lib"):
+    rep.rule("R13-single-release", "the single NIL and ERROR nodes are allocated in every parse; their release when unused depends on nothing but `a release function was "
+                                   "given' and the `used' mark: no other condition on persistent state (grammar settings) controls it (otherwise the block leaks in the "
+                                   "parses where the condition is false)")
+    from .c10 import site_conditions
+    from .r25 import _persistent
+    p = ctx.prog(config)
+    g = p.fn("make_parse")
+    rep.cover(p, [g.name])
+    singles = {}
+    for s in g.all_insts():
+        if s.op == "store" and resolve_addr(g, s.ops[1]).last_field() == "yaep_tree_node.type" and const_int(s.ops[0]) in (0, 1):
+            pa = resolve_addr(g, s.ops[1])
+            if pa.root[0] == "val":
+                singles[const_int(s.ops[0])] = (strip_casts(g, pa.root[1]), s)
+    n = 0
+    for tv, (x, born) in sorted(singles.items()):
+        name = "NIL" if tv == 0 else "ERROR"
+        al = cast_aliases(g, x)
+        rel = [c for c in g.calls() if not c.callee and via_global(g, c, "parse_free") and c.args and strip_casts(g, c.args[0]).get("v") in al]
+        if not rel:
+            raise AnalysisBroken("R13-single-release: make_parse does not release the unused %s node" % name)
+        kb = _persistent(site_conditions(p, g, born))
+        for c in rel:
+            n += 1
+            key = "make_parse/release-of-unused-%s#%d" % (name, n)
+            kr = set(k for k in _persistent(site_conditions(p, g, c)) if "parse_free" not in k)
+            extra = kr - kb
+            if extra:
+                rep.violation("R13-single-release", key, "the unused %s node is released only when %s, but it is allocated in every parse: in the other parses the block "
+                              "obtained from the caller's parse_alloc is never handed to parse_free" % (name, " and ".join(sorted(extra))), where=c.where(),
+                              witness=[born.where(), c.where()])
+            else:
+                rep.ok("R13-single-release", key, sample={"release": c.where()})
+    rep.floor("R13-single-release", "releases of the unused single nodes", n, 2)
+
+
+def rule_free_tree_null(ctx, rep, config="c-lib"):
+    rep.rule("T4-null-root", "yaep_free_tree (NULL, ..) is a no-op: every call in yaep_free_tree that hands `root' to a function which dereferences that parameter without "
+                             "testing it is controlled by root != NULL (a recovery-off parse of a wrong input returns 0 with a NULL root, and callers free what they got)")
+    p = ctx.prog(config)
+    f = p.fn("yaep_free_tree")
+    rep.cover(p, [f.name])
+
+    def needs_nonnull(g, k):
+        for i in g.all_insts():
+            if i.op not in ("load", "store"):
+                continue
+            pa = resolve_addr(g, i.ops[1] if i.op == "store" else i.ops[0])
+            if pa.root != ("a", k) or not pa.steps:
+                continue
+            guarded = False
+            for (cc, pol) in _controlling_conditions(g, i.block.name):
+                if strip_casts(g, cc.ops[0]) == {"k": "a", "v": k} and strip_casts(g, cc.ops[1]).get("k") == "null" and (cc.d["pred"] == "ne") == pol:
+                    guarded = True
+            if not guarded:
+                return i
+        return None
+    n = 0
+    for c in f.calls():
+        if not c.callee or c.callee not in p.m.functions or p.m.functions[c.callee].decl:
+            continue
+        for k, a in enumerate(c.args):
+            if strip_casts(f, a) != {"k": "a", "v": 0}:
+                continue
+            d = needs_nonnull(p.m.functions[c.callee], k)
+            if d is None:
+                continue
+            n += 1
+            key = "yaep_free_tree/%s-gets-non-null-root" % c.callee
+            ok = any(strip_casts(f, cc.ops[0]) == {"k": "a", "v": 0} and strip_casts(f, cc.ops[1]).get("k") == "null" and (cc.d["pred"] == "ne") == pol
+                     for (cc, pol) in _controlling_conditions(f, c.block.name))
+            if ok:
+                rep.ok("T4-null-root", key, sample={"call": c.where()})
+            else:
+                rep.violation("T4-null-root", key, "%s dereferences its node (%s) and is called with `root' without a test against NULL: yaep_free_tree (NULL, ..) -- the "
+                              "documented no-op, and what a caller does with the NULL root of a recovery-off parse -- crashes" % (c.callee, d.where()),
+                              where=c.where(), witness=[c.where(), d.where()])
+    rep.floor("T4-null-root", "calls of yaep_free_tree that need a non-null root", n, 1)
